@@ -64,7 +64,6 @@ theorem Inst.step_count_ids (x x' : Inst) (a : IAct) (woke : List Nat)
     (h : x.step a = some (x', woke)) (q : Nat) :
     count q x'.ids = count q x.ids + startBump q a := by
   cases a <;> simp only [startBump]
-  all_goals skip
   case start r =>
     simp only [Inst.step, Inst.start] at h
     split at h <;> simp at h
